@@ -91,7 +91,7 @@ pub struct ConverseCase {
 }
 
 /// (extension whose absence is tested, human name)
-const SAMPLES: [(&str, &str); 7] = [
+const SAMPLES: [(&str, &str); 8] = [
     ("alias", "`|` in a name"),
     ("range", "`2-3` value"),
     ("advanced", "`1 kg` without %"),
@@ -99,6 +99,7 @@ const SAMPLES: [(&str, &str); 7] = [
     ("inline", "number + known unit in text"),
     ("timer", "timer without duration"),
     ("modifiers", "modifier character after the marker"),
+    ("intermediate", "`&(1)` after the marker"),
 ];
 
 fn sample_ext(sample: u8) -> Extensions {
@@ -109,6 +110,7 @@ fn sample_ext(sample: u8) -> Extensions {
         3 => Extensions::MODES,
         4 => Extensions::INLINE_QUANTITIES,
         5 => Extensions::TIMER_REQUIRES_TIME,
+        7 => Extensions::INTERMEDIATE_PREPARATIONS,
         _ => Extensions::COMPONENT_MODIFIERS,
     }
 }
@@ -145,7 +147,7 @@ fn inject(m: &mut RecipeM, sample: u8, variant: u8, pos: u16) {
         }
         3 => {
             m.front = None;
-            m.blocks.retain(|b| !matches!(b, BlockM::Meta(k, _) if k.starts_with('[')));
+            m.blocks.retain(|b| !matches!(b, BlockM::Meta(k, _) if k.starts_with('[')) && !matches!(b, BlockM::StepLine(_)));
             let (k, v) = [("[mode]", "steps"), ("[mode]", "components"), ("[duplicate]", "ref"), ("[define]", "text"), ("[mode]", "bogus")][variant as usize % 5];
             let i = (pos as usize * (m.blocks.len() + 1)) >> 16;
             m.blocks.insert(i, BlockM::Meta(k.into(), v.into()));
@@ -174,20 +176,53 @@ fn inject(m: &mut RecipeM, sample: u8, variant: u8, pos: u16) {
     m.blocks.insert(i, step);
 }
 
+/// `@&(1)dough{}`: with INTERMEDIATE off it is, under MODIFIERS, a plain `&` reference to an ingredient
+/// named `(1)dough`, and without MODIFIERS an ingredient named `&(1)dough`
+fn intermediate_models(m: &RecipeM, variant: u8) -> (RecipeM, RecipeM) {
+    let inner = ["(1)", "(=1)", "(2)"][variant as usize % 3];
+    let comp = |name: String, mods: u16| CompM { kind: Kind::Ingredient, mods, inter: None, name, alias: None, qty: None, note: None, braces: true };
+    let word = |w: &str, sp: bool| StepTok { space_before: sp, tok: TokM::Word(w.into()) };
+    let def = BlockM::Step(vec![word("Make", false), StepTok { space_before: true, tok: TokM::Comp(comp(format!("{inner}dough"), 0)) }, word("then", true)]);
+    let mut core = m.clone();
+    core.blocks.push(def.clone());
+    core.blocks.push(BlockM::Step(vec![word("Add", false), StepTok { space_before: true, tok: TokM::Comp(comp(format!("&{inner}dough"), 0)) }, word("now", true)]));
+    let mut ext = m.clone();
+    ext.level = Level::Ext;
+    ext.blocks.push(def);
+    ext.blocks.push(BlockM::Step(vec![word("Add", false), StepTok { space_before: true, tok: TokM::Comp(comp(format!("{inner}dough"), M_REF)) }, word("now", true)]));
+    (core, ext)
+}
+
 fn check_converse(c: &ConverseCase, st: &mut Stats) -> Verdict {
     let mut m = build(&c.raw, false);
-    let sample = c.sample % 7;
-    inject(&mut m, sample, c.variant, c.pos);
+    let sample = c.sample % 8;
+    let mut with_modifiers: Option<RecipeM> = None;
+    if sample == 7 {
+        let (core, ext) = intermediate_models(&m, c.variant);
+        if print_recipe(&core, &c.raw.tape).0 != print_recipe(&ext, &c.raw.tape).0 {
+            st.exclude("the two readings do not print identically");
+            return Ok(());
+        }
+        m = core;
+        with_modifiers = Some(ext);
+    } else {
+        inject(&mut m, sample, c.variant, c.pos);
+    }
     let (src, _) = print_recipe(&m, &c.raw.tape);
     st.class(&format!("converse: {}", SAMPLES[sample as usize].1));
     st.nontrivial(&src);
     st.sample(|| json!({"sample": SAMPLES[sample as usize].1, "source": src}));
-    let expected = expected_image(&m, &ExpectOpts { inline: false });
+    let expected_plain = expected_image(&m, &ExpectOpts { inline: false });
+    let expected_mod = with_modifiers.as_ref().map(|e| expected_image(e, &ExpectOpts { inline: false }));
     let lacking = sample_ext(sample);
     for idx in 0..N_EXT {
-        if ALL_EXTS[idx].intersects(lacking) {
+        if ALL_EXTS[idx].contains(lacking) {
             continue;
         }
+        let expected = match &expected_mod {
+            Some(e) if ALL_EXTS[idx].contains(Extensions::COMPONENT_MODIFIERS) => e,
+            _ => &expected_plain,
+        };
         let res = match guard(|| parser(idx, 1).parse(&src)) {
             Ok(r) => r,
             Err(p) => vbail!("c02.panic", "parse panicked under {}: {p}; source {src:?}", ext_name(idx)),
@@ -201,7 +236,7 @@ fn check_converse(c: &ConverseCase, st: &mut Stats) -> Verdict {
             ext_name(idx)
         );
         let actual = actual_image(res.output().unwrap()).map_err(|e| Violation::new("c02.image", e))?;
-        if let Some((what, d)) = diff(&expected, &actual) {
+        if let Some((what, d)) = diff(expected, &actual) {
             vbail!(
                 format!("c02.converse-mismatch.{}.{what}", SAMPLES[sample as usize].0),
                 "{} with its extension off under {}: {d}; source {src:?}",
@@ -214,7 +249,7 @@ fn check_converse(c: &ConverseCase, st: &mut Stats) -> Verdict {
 }
 
 fn converse_strategy() -> impl Strategy<Value = ConverseCase> {
-    (raw_recipe(Some(false)), 0u8..7, any::<u8>(), any::<u16>()).prop_map(|(raw, sample, variant, pos)| ConverseCase { raw, sample, variant, pos })
+    (raw_recipe(Some(false)), 0u8..8, any::<u8>(), any::<u16>()).prop_map(|(raw, sample, variant, pos)| ConverseCase { raw, sample, variant, pos })
 }
 
 pub fn run(tier: Tier) -> i32 {
@@ -245,7 +280,7 @@ pub fn run(tier: Tier) -> i32 {
         run_prop(
             &mut run,
             "converse",
-            "one documented special syntax (alias pipe, range, unit without %, bracketed mode key, number+unit in text, timer without duration, modifier character) placed in a generated Core recipe; parsed under every subset lacking that extension; must equal the core reading computed by the reference resolver; every case is non-trivial",
+            "one documented special syntax (alias pipe, range, unit without %, bracketed mode key, number+unit in text, timer without duration, modifier character, `&(n)` with intermediate preparations off but modifiers on or off) placed in a generated Core recipe; parsed under every subset lacking that extension; must equal the core reading computed by the reference resolver; every case is non-trivial",
             converse_strategy,
             tier.pick(2_500, 150_000),
             check_converse,
